@@ -11,7 +11,8 @@ import mir
 from mir import Unrecognised
 
 VERIF = factsmod.VERIF
-EVID = os.path.join(VERIF, 'evidence')
+# (RBP_EVIDENCE_DIR: only the parallel regression runners under tools/ set it, to keep scratch runs out of evidence/)
+EVID = os.environ.get('RBP_EVIDENCE_DIR') or os.path.join(VERIF, 'evidence')
 KNOWN = os.path.join(VERIF, 'known_findings.json')
 
 
